@@ -1,3 +1,4 @@
+import token
 import tokenize
 from pathlib import Path
 
@@ -32,7 +33,15 @@ class SourceFile:
         return self._source.asttokens()
 
     def _token_to_code(self, tokens):
-        return self._format(tokenize.untokenize(tokens)).strip()
+        tokens = list(tokens)
+        code = tokenize.untokenize(tokens)
+
+        if len(tokens) == 1 and tokens[0][0] == token.STRING:
+            # a single string would be formatted like a docstring (stripped, ...)
+            prefix = "_ = "
+            return self._format(prefix + code).strip()[len(prefix) :].strip()
+
+        return self._format(code).strip()
 
     def _value_to_code(self, value):
         return self._token_to_code(value_to_token(value))
